@@ -18,6 +18,7 @@
  */
 #include "internal.h"
 #include <inttypes.h>
+#include <dirent.h>
 
 static void mark(const char *m) { access(m, F_OK); }
 
@@ -143,6 +144,65 @@ int main(int argc, char **argv)
     printf("close %d\n", i);
     return 0;
   }
-  fprintf(stderr, "usage: app write|rawwrite|reader ...\n");
+  if (argc >= 4 && !strcmp(argv[1], "soak")) {
+    /* app soak DIR ROUNDS : the long-running reader.  One handle R stays open for the whole run and is polled
+     * ROUNDS times; a second handle W of the same process appends in some rounds (1..4 samples, then gd_flush so
+     * that the data are published) and stays idle in others; the first rounds poll a still-empty dirfile.
+     * Every round R asks for gd_nframes and reads exactly the frames it has not seen yet (possibly none: a
+     * zero-length gd_getdata).  Reported: open descriptors and R->recurse_level (min/max after a warm-up),
+     * number of rounds in which a reported frame could not be read back correctly, errors. */
+    int rounds = atoi(argv[3]), r, bad = 0, first_bad = -1, errs = 0, first_err = -1, last_errcode = 0;
+    int fdmin = 1 << 30, fdmax = -1, recmax = 0, nfdec = 0;
+    DIRFILE *R = gd_open(argv[2], GD_RDONLY);
+    DIRFILE *W = gd_open(argv[2], GD_RDWR);
+    off64_t next_a = 0, seen = 0, last_nf = 0;
+    unsigned spf;
+    if (gd_error(R) || gd_error(W)) { printf("soak openerr %d %d\n", gd_error(R), gd_error(W)); return 3; }
+    spf = gd_spf(R, "a");
+    next_a = gd_eof64(W, "a"); if (next_a < 0) next_a = 0;
+    for (r = 0; r < rounds; r++) {
+      int k = (r < 10) ? 0 : ((r * 7 + 3) % 5);     /* 0 = idle round */
+      off64_t nf;
+      if (k > 0) {
+        int32_t v[8]; int i;
+        for (i = 0; i < k; i++) v[i] = (int32_t)(1000 + next_a + i);
+        next_a += gd_putdata64(W, "a", 0, next_a, 0, k, GD_INT32, v);
+        gd_flush(W, NULL);
+      }
+      nf = gd_nframes64(R);
+      if (gd_error(R)) { if (next_a > 0) { errs++; if (first_err < 0) first_err = r; last_errcode = gd_error(R); } }
+      else {
+        if (nf < last_nf) nfdec++;
+        last_nf = nf;
+        {
+          size_t want = (size_t)((nf - seen) * spf), got, i;
+          int32_t *buf = malloc(sizeof(int32_t) * (want + 1));
+          int okf = 1;
+          got = gd_getdata64(R, "a", seen, 0, (size_t)(nf - seen), 0, GD_INT32, buf);
+          if (gd_error(R)) { errs++; if (first_err < 0) first_err = r; last_errcode = gd_error(R); okf = 0; }
+          else if (got != want) okf = 0;
+          else for (i = 0; i < got; i++) if (buf[i] != (int32_t)(1000 + seen * spf + i)) okf = 0;
+          if (!okf) { bad++; if (first_bad < 0) { first_bad = r; printf("soakbad round %d seen %lld nf %lld want %zu got %zu err %d first %d\n", r, (long long)seen, (long long)nf, want, got, gd_error(R), got ? buf[0] : -1); } }
+          free(buf);
+          if (nf > seen) seen = nf;
+        }
+      }
+      if (r >= 20) {
+        int nfd = 0;
+        DIR *dd = opendir("/proc/self/fd");
+        struct dirent *de;
+        while (dd && (de = readdir(dd))) if (de->d_name[0] != '.') nfd++;
+        if (dd) closedir(dd);
+        if (nfd < fdmin) fdmin = nfd;
+        if (nfd > fdmax) fdmax = nfd;
+      }
+      if (R->recurse_level > recmax) recmax = R->recurse_level;
+    }
+    printf("soak rounds %d nf %lld written_frames %lld fdmin %d fdmax %d recmax %d bad %d first_bad %d errs %d first_err %d errcode %d nfdec %d\n",
+        rounds, (long long)last_nf, (long long)(next_a / spf), fdmin, fdmax, recmax, bad, first_bad, errs, first_err, last_errcode, nfdec);
+    gd_discard(R); gd_close(W);
+    return 0;
+  }
+  fprintf(stderr, "usage: app write|rawwrite|reader|soak ...\n");
   return 2;
 }
